@@ -633,9 +633,9 @@ def conditions(tier):
                     f'all contents ({n}+{m} bits) x start,stop,step in [-{lim},{lim}] or None', D_ITEM, n=n, m=m, cls=c)
             if n in (3, 4):
                 add(f'C03.setslice-bits[{c},self,n={n}]', h_setslice_bits(c, 'self', n, n, lim), f'all {n}-bit contents, value is the object itself', D_ITEM, n=n, cls=c)
-        for (n, m, k) in ([(4, 1, 2), (3, 0, 1)] if q else [(4, 1, 2), (5, 2, 1), (4, 1, 0), (3, 0, 1), (6, 2, 3), (7, 1, 1), (8, 3, 2)]):
-            if q and c == 'BitStream' and n == 4:
-                n = 3
+        for (n, m, k) in ([(3, 1, 2), (4, 2, 1), (3, 0, 1)] if q else [(4, 1, 2), (5, 2, 1), (4, 1, 0), (3, 0, 1), (6, 2, 3), (7, 1, 1), (8, 3, 2)]):
+            if q and c == 'BitStream' and (n, m) == (3, 1):
+                continue
             add(f'C03.replace[{c},n={n},old={m},new={k}]', h_replace(c, n, m, k, n + 1, 'plain'),
                 f'all contents ({n}-bit data, {m}-bit old, {k}-bit new) x start,end in [-{n + 1},{n + 1}] or None x count in [-1,3] or None', D_REP, n=n, m=m, k=k, cls=c)
         for (n, m, k) in ([] if q else [(9, 1, 2), (10, 2, 1), (16, 8, 3)]):
